@@ -169,6 +169,45 @@ func batchOps(fn *ssa.Function) map[string]map[string][]ssa.Instruction {
 					}
 				}
 			}
+			// a method (or helper) called on a context struct that carries the batch: flusher := &accountFlusher{batch: b};
+			// flusher.flushCode()
+			if g := core.StaticCallee(call); g != nil && len(g.Blocks) > 0 && core.PkgOf(g) == ledgerPkg && g != fn {
+				for ai, a := range call.Common().Args {
+					al, isAlloc := core.Strip(a).(*ssa.Alloc)
+					if !isAlloc || ai >= len(g.Params) {
+						continue
+					}
+					for _, rf := range *al.Referrers() {
+						fa, isFA := rf.(*ssa.FieldAddr)
+						if !isFA || fa.X != ssa.Value(al) || !strings.HasSuffix(fa.Type().String(), "storage.Batch") {
+							continue
+						}
+						var stored ssa.Value
+						for _, rr := range *fa.Referrers() {
+							if st, isSt := rr.(*ssa.Store); isSt && st.Addr == ssa.Value(fa) {
+								stored = st.Val
+							}
+						}
+						if stored == nil {
+							continue
+						}
+						fld := fa.Field
+						ctxPar := g.Params[ai]
+						isCtxBatch := func(rv ssa.Value) bool {
+							u, isU := rv.(*ssa.UnOp)
+							if !isU {
+								return false
+							}
+							f2, isF2 := u.X.(*ssa.FieldAddr)
+							return isF2 && f2.Field == fld && core.Strip(f2.X) == ssa.Value(ctxPar)
+						}
+						for _, ko := range helperBatchWritesPred(g, nil, isCtxBatch, 0, map[*ssa.Function]bool{fn: true}, nil) {
+							batchOfSite[call] = stored
+							add(ko[0], ko[1], call)
+						}
+					}
+				}
+			}
 			// a helper of the ledger package that receives the batch and writes through it (also through helpers of its own)
 			g := core.StaticCallee(call)
 			if g == nil || len(g.Blocks) == 0 || core.PkgOf(g) != ledgerPkg || g == fn {
